@@ -27,6 +27,18 @@
 //     is the switch variable / the receiver). Props/C18.lean proves that this classification equals
 //     the model's `Kind.inPlace` table.
 //
+//   - elemStores: for the member loop of Simplify and Dup of gen.Array / gen.Object, every store of a
+//     member into the container being built, as (guard, kind): kind nil / rec (`m.<Method>()`) /
+//     shared (the member itself) / other; guard "" (only the `m == nil` test), the clause of a type
+//     switch on the member, or another condition. Props/C18.lean (copy_elements_match_source) proves
+//     that every loop stores, for every member kind alike, nil or the recursive call — the model's
+//     copy discipline (a fresh cell for every container).
+//
+//   - omitTable: every clause of the type switch of alt.condMapSet and of the switch in the map
+//     clause of alt.alter as (member type, condition under which the member is left out), and the
+//     conditional store of the map clauses of Generify / GenAlter. Props/C18Omit.lean
+//     (omit_tables_match_source) proves that they equal the rows of the model's condOmit / omits.
+//
 // These facts are regression tripwires over the lines the model (and the two C18 fixes) depend on,
 // not a translation of the functions: the tie of the model as a whole is the correspondence run.
 //
@@ -425,6 +437,325 @@ func convMethodArm(f *ast.File, rel, recv, name string) (convArm, error) {
 	return convArm{}, fmt.Errorf("%s: method %s.%s not found", rel, recv, name)
 }
 
+// convElemStore is one store of a member into the container that a copying method of gen.Array /
+// gen.Object builds (see elemStores in the generated file).
+type convElemStore struct{ fn, guard, kind string }
+
+// convElemStores reads the `for _, m := range <receiver>` loop of method `(n recv) name()` and
+// classifies every store into a container other than the receiver (`a[i] = X`, `o[k] = X`,
+// `a = append(a, X)`): kind "nil" (nil literal, or the member itself under `m == nil`), "rec"
+// (`m.name()`, dynamic dispatch on the member or on a type-switch binding of it), "shared" (the member
+// itself, unconverted), "other"; guard "" (unconditional apart from the `m == nil` test), the
+// `|`-joined types or "default" of the enclosing clause of a type switch on the member, or "cond".
+func convElemStores(f *ast.File, rel, recv, name string) ([]convElemStore, error) {
+	fn := recv + "." + name
+	for _, d := range f.Decls {
+		x, ok := d.(*ast.FuncDecl)
+		if !ok || x.Recv == nil || x.Name.Name != name || x.Body == nil || len(x.Recv.List) != 1 {
+			continue
+		}
+		if convTypeText(x.Recv.List[0].Type) != recv || len(x.Recv.List[0].Names) != 1 {
+			continue
+		}
+		base := x.Recv.List[0].Names[0].Name
+		var loop *ast.RangeStmt
+		ast.Inspect(x.Body, func(n ast.Node) bool {
+			if r, ok := n.(*ast.RangeStmt); ok && loop == nil {
+				if id, ok := r.X.(*ast.Ident); ok && id.Name == base {
+					loop = r
+					return false
+				}
+			}
+			return true
+		})
+		if loop == nil {
+			return nil, fmt.Errorf("%s: %s has no range loop over its receiver", rel, fn)
+		}
+		mv, ok := loop.Value.(*ast.Ident)
+		if !ok {
+			return nil, fmt.Errorf("%s: %s: the range loop binds no member variable", rel, fn)
+		}
+		alias := map[string]bool{mv.Name: true}
+		var out []convElemStore
+		isMember := func(e ast.Expr) bool {
+			id, ok := e.(*ast.Ident)
+			return ok && alias[id.Name]
+		}
+		classify := func(e ast.Expr, nilCtx bool) string {
+			if id, ok := e.(*ast.Ident); ok && id.Name == "nil" {
+				return "nil"
+			}
+			if isMember(e) {
+				if nilCtx {
+					return "nil"
+				}
+				return "shared"
+			}
+			if c, ok := e.(*ast.CallExpr); ok && len(c.Args) == 0 {
+				if sel, ok := c.Fun.(*ast.SelectorExpr); ok && sel.Sel.Name == name && isMember(sel.X) {
+					return "rec"
+				}
+			}
+			return "other"
+		}
+		var walk func(stmts []ast.Stmt, guard string, nilCtx bool)
+		walk = func(stmts []ast.Stmt, guard string, nilCtx bool) {
+			for _, st := range stmts {
+				switch s := st.(type) {
+				case *ast.BlockStmt:
+					walk(s.List, guard, nilCtx)
+				case *ast.IfStmt:
+					thenNil, elseNil, g := nilCtx, nilCtx, guard
+					if be, ok := s.Cond.(*ast.BinaryExpr); ok && s.Init == nil && isMember(be.X) && convTypeText(be.Y) == "nil" && be.Op == token.EQL {
+						thenNil, elseNil = true, false
+					} else if ok && s.Init == nil && isMember(be.X) && convTypeText(be.Y) == "nil" && be.Op == token.NEQ {
+						thenNil, elseNil = false, true
+					} else {
+						g = "cond"
+					}
+					walk(s.Body.List, g, thenNil)
+					if s.Else != nil {
+						walk([]ast.Stmt{s.Else}, g, elseNil)
+					}
+				case *ast.TypeSwitchStmt:
+					var subject ast.Expr
+					switch a := s.Assign.(type) {
+					case *ast.AssignStmt:
+						if len(a.Lhs) == 1 && len(a.Rhs) == 1 {
+							if ta, ok := a.Rhs[0].(*ast.TypeAssertExpr); ok {
+								subject = ta.X
+								if isMember(subject) {
+									alias[a.Lhs[0].(*ast.Ident).Name] = true
+								}
+							}
+						}
+					case *ast.ExprStmt:
+						if ta, ok := a.X.(*ast.TypeAssertExpr); ok {
+							subject = ta.X
+						}
+					}
+					for _, c := range s.Body.List {
+						cc := c.(*ast.CaseClause)
+						g := "cond"
+						if subject != nil && isMember(subject) {
+							g = "default"
+							if cc.List != nil {
+								var ts []string
+								for _, tx := range cc.List {
+									ts = append(ts, convTypeText(tx))
+								}
+								g = strings.Join(ts, "|")
+							}
+						}
+						walk(cc.Body, g, false)
+					}
+				case *ast.AssignStmt:
+					for i, l := range s.Lhs {
+						if i >= len(s.Rhs) {
+							break
+						}
+						if ix, ok := l.(*ast.IndexExpr); ok {
+							if id, ok := ix.X.(*ast.Ident); ok && id.Name != base {
+								out = append(out, convElemStore{fn, guard, classify(s.Rhs[i], nilCtx)})
+							}
+							continue
+						}
+						if c, ok := s.Rhs[i].(*ast.CallExpr); ok {
+							if id, ok := c.Fun.(*ast.Ident); ok && id.Name == "append" && len(c.Args) >= 2 {
+								for _, a := range c.Args[1:] {
+									out = append(out, convElemStore{fn, guard, classify(a, nilCtx)})
+								}
+							}
+						}
+					}
+				default:
+					found := false
+					ast.Inspect(st, func(n ast.Node) bool {
+						if _, ok := n.(*ast.AssignStmt); ok {
+							found = true
+						}
+						return true
+					})
+					if found {
+						out = append(out, convElemStore{fn, "cond", "other"})
+					}
+				}
+			}
+		}
+		walk(loop.Body.List, "", false)
+		return out, nil
+	}
+	return nil, fmt.Errorf("%s: method %s not found", rel, fn)
+}
+
+// convCondText renders a condition with the identifier `bind` written as x.
+func convCondText(e ast.Expr, bind string) string {
+	switch x := e.(type) {
+	case *ast.Ident:
+		if x.Name == bind {
+			return "x"
+		}
+		return x.Name
+	case *ast.BasicLit:
+		return x.Value
+	case *ast.ParenExpr:
+		return "(" + convCondText(x.X, bind) + ")"
+	case *ast.SelectorExpr:
+		return convCondText(x.X, bind) + "." + x.Sel.Name
+	case *ast.UnaryExpr:
+		return x.Op.String() + convCondText(x.X, bind)
+	case *ast.BinaryExpr:
+		return convCondText(x.X, bind) + " " + x.Op.String() + " " + convCondText(x.Y, bind)
+	case *ast.CallExpr:
+		var as []string
+		for _, a := range x.Args {
+			as = append(as, convCondText(a, bind))
+		}
+		return convCondText(x.Fun, bind) + "(" + strings.Join(as, ", ") + ")"
+	}
+	return "?"
+}
+
+type convOmitRow struct{ fn, typ, cond string }
+
+// convOmitSwitch reads a type switch `switch x := value.(type)` whose clauses are each one
+// `if <cond> { [delete(...);] return|continue }`: (types of the clause, condition under which the
+// member is left out).
+func convOmitSwitch(fn string, ts *ast.TypeSwitchStmt) ([]convOmitRow, error) {
+	bind := ""
+	if as, ok := ts.Assign.(*ast.AssignStmt); ok && len(as.Lhs) == 1 {
+		bind = as.Lhs[0].(*ast.Ident).Name
+	}
+	var out []convOmitRow
+	for _, st := range ts.Body.List {
+		cc := st.(*ast.CaseClause)
+		var tys []string
+		for _, tx := range cc.List {
+			tys = append(tys, convTypeText(tx))
+		}
+		typ := strings.Join(tys, "|")
+		if cc.List == nil {
+			typ = "default"
+		}
+		if len(cc.Body) != 1 {
+			return nil, fmt.Errorf("alt/decompose.go: %s: clause %s is not a single if statement", fn, typ)
+		}
+		is, ok := cc.Body[0].(*ast.IfStmt)
+		if !ok || is.Init != nil || is.Else != nil || len(is.Body.List) == 0 {
+			return nil, fmt.Errorf("alt/decompose.go: %s: clause %s is not a single if statement", fn, typ)
+		}
+		switch last := is.Body.List[len(is.Body.List)-1].(type) {
+		case *ast.ReturnStmt:
+		case *ast.BranchStmt:
+			if last.Tok != token.CONTINUE {
+				return nil, fmt.Errorf("alt/decompose.go: %s: clause %s does not skip the store", fn, typ)
+			}
+		default:
+			return nil, fmt.Errorf("alt/decompose.go: %s: clause %s does not skip the store", fn, typ)
+		}
+		out = append(out, convOmitRow{fn, typ, convCondText(is.Cond, bind)})
+	}
+	return out, nil
+}
+
+// convOmitTables: the switch of condMapSet, the identical switch in the map clause of alter, and the
+// keep conditions of the map clauses of Generify / GenAlter (`if <cond> { o[k] = g }`).
+func convOmitTables(decF, genF *ast.File) ([]convOmitRow, error) {
+	var out []convOmitRow
+	find := func(f *ast.File, name string) *ast.FuncDecl {
+		for _, d := range f.Decls {
+			if x, ok := d.(*ast.FuncDecl); ok && x.Recv == nil && x.Name.Name == name && x.Body != nil {
+				return x
+			}
+		}
+		return nil
+	}
+	firstSwitch := func(n ast.Node) *ast.TypeSwitchStmt {
+		var ts *ast.TypeSwitchStmt
+		ast.Inspect(n, func(n ast.Node) bool {
+			if x, ok := n.(*ast.TypeSwitchStmt); ok && ts == nil {
+				ts = x
+				return false
+			}
+			return ts == nil
+		})
+		return ts
+	}
+	mapClause := func(fd *ast.FuncDecl) *ast.CaseClause {
+		ts := firstSwitch(fd.Body)
+		if ts == nil {
+			return nil
+		}
+		for _, st := range ts.Body.List {
+			cc := st.(*ast.CaseClause)
+			if len(cc.List) == 1 && convTypeText(cc.List[0]) == "map[string]any" {
+				return cc
+			}
+		}
+		return nil
+	}
+	cms := find(decF, "condMapSet")
+	if cms == nil || firstSwitch(cms.Body) == nil {
+		return nil, fmt.Errorf("alt/decompose.go: condMapSet with a type switch not found")
+	}
+	rows, err := convOmitSwitch("condMapSet", firstSwitch(cms.Body))
+	if err != nil {
+		return nil, err
+	}
+	out = append(out, rows...)
+	al := find(decF, "alter")
+	if al == nil || mapClause(al) == nil {
+		return nil, fmt.Errorf("alt/decompose.go: alter with a map[string]any clause not found")
+	}
+	var inner *ast.TypeSwitchStmt
+	for _, st := range mapClause(al).Body {
+		if ts := firstSwitch(st); ts != nil {
+			inner = ts
+			break
+		}
+	}
+	if inner == nil {
+		return nil, fmt.Errorf("alt/decompose.go: alter: no type switch on the converted member")
+	}
+	if rows, err = convOmitSwitch("alter", inner); err != nil {
+		return nil, err
+	}
+	out = append(out, rows...)
+	for _, fn := range []string{"Generify", "GenAlter"} {
+		fd := find(genF, fn)
+		if fd == nil || mapClause(fd) == nil {
+			return nil, fmt.Errorf("alt/generifier.go: %s with a map[string]any clause not found", fn)
+		}
+		n := 0
+		for _, st := range mapClause(fd).Body {
+			ast.Inspect(st, func(nd ast.Node) bool {
+				is, ok := nd.(*ast.IfStmt)
+				if !ok || len(is.Body.List) != 1 {
+					return true
+				}
+				as, ok := is.Body.List[0].(*ast.AssignStmt)
+				if !ok || len(as.Lhs) != 1 || len(as.Rhs) != 1 {
+					return true
+				}
+				if _, ok := as.Lhs[0].(*ast.IndexExpr); !ok {
+					return true
+				}
+				g, ok := as.Rhs[0].(*ast.Ident)
+				if !ok {
+					return true
+				}
+				out = append(out, convOmitRow{fn, "keep", convCondText(is.Cond, g.Name)})
+				n++
+				return true
+			})
+		}
+		if n != 1 {
+			return nil, fmt.Errorf("alt/generifier.go: %s: expected one conditional store `if c { o[k] = g }` in the map clause, found %d", fn, n)
+		}
+	}
+	return out, nil
+}
+
 func extractConv(repo, out string) ([]string, error) {
 	fset := token.NewFileSet()
 	parse := func(rel string) (*ast.File, error) {
@@ -517,6 +848,44 @@ func extractConv(repo, out string) ([]string, error) {
 			sep = ""
 		}
 		fmt.Fprintf(&b, "  (%q, %q, %v, %v)%s\n", a.fn, a.arm, a.builds, a.writes, sep)
+	}
+	b.WriteString("]\n\n")
+	var stores []convElemStore
+	for _, x := range []struct{ rel, recv string }{{"gen/array.go", "Array"}, {"gen/object.go", "Object"}} {
+		mf, err := parse(x.rel)
+		if err != nil {
+			return nil, err
+		}
+		for _, m := range []string{"Simplify", "Dup"} {
+			ss, err := convElemStores(mf, x.rel, x.recv, m)
+			if err != nil {
+				return nil, err
+			}
+			stores = append(stores, ss...)
+		}
+	}
+	b.WriteString("/-- (method, guard, kind) for every store of a member into the container that a copying method of\ngen.Array / gen.Object builds in its `for _, m := range n` loop. guard: \"\" = unconditional apart from the\n`m == nil` test, the types (or \"default\") of the enclosing clause of a type switch on the member, \"cond\" =\nunder some other condition. kind: \"nil\" = nil for a nil member, \"rec\" = `m.<Method>()` (dynamic dispatch on\nthe member), \"shared\" = the member itself, unconverted, \"other\". -/\n")
+	b.WriteString("def elemStores : List (String × String × String) := [\n")
+	for i, a := range stores {
+		sep := ","
+		if i == len(stores)-1 {
+			sep = ""
+		}
+		fmt.Fprintf(&b, "  (%q, %q, %q)%s\n", a.fn, a.guard, a.kind, sep)
+	}
+	b.WriteString("]\n\n")
+	orows, err := convOmitTables(decF, genF)
+	if err != nil {
+		return nil, err
+	}
+	b.WriteString("/-- (function, type of the converted member `x`, condition under which the member is LEFT OUT) for the\nswitch of alt.condMapSet and the switch in the map clause of alt.alter; for Generify / GenAlter\n(function, \"keep\", condition under which the converted member `x` is STORED). -/\n")
+	b.WriteString("def omitTable : List (String × String × String) := [\n")
+	for i, a := range orows {
+		sep := ","
+		if i == len(orows)-1 {
+			sep = ""
+		}
+		fmt.Fprintf(&b, "  (%q, %q, %q)%s\n", a.fn, a.typ, a.cond, sep)
 	}
 	b.WriteString("]\n\n")
 	b.WriteString("end OjgVerif.Gen.Conv\n")
